@@ -144,4 +144,13 @@ def run(repo, tier) -> Result:
     from ..framework_rules import check_registry_writers
 
     check_registry_writers("C14", res, repo)
+    from ..driver import check_merge
+    from ..framework_rules import check_name_matching, check_registry_order, check_selection
+    from ..ownership import check_purge_paths
+
+    check_merge("C14", res, repo)
+    check_purge_paths("C14", res, repo)
+    check_selection("C14", res, repo)
+    check_name_matching("C14", res, repo)
+    check_registry_order("C14", res, repo)
     return res
